@@ -264,24 +264,30 @@ def run(tier, seed, replay=None):
             for strict in (False, True):
                 jobsD.append((fmt, w, h, strict))
 
-    def doD(j):
-        fmt, w, h, strict = j
-        ppm = os.path.join(base, "p_%dx%d.ppm" % (w, h))
-        if not os.path.exists(ppm):
-            with open(ppm, "w") as f:
-                f.write("P3\n%d %d\n255\n" % (w, h) + "".join("%d %d %d\n" % ((i * 13) % 256, (i * 7) % 256, 40) for i in range(w * h)))
-        blp = os.path.join(base, "p_%dx%d_%s.blp" % (w, h, fmt))
-        if not os.path.exists(blp):
-            rc, o, e = runcli(cli, ["blp", "convert", ppm, blp, "--blp-version", "blp2" if fmt != "jpeg" else "blp1", "--blp-format", fmt, "--no-mipmaps"])
-            if rc != 0:
-                return ("convert", rc, (o + e)[-160:], os.path.exists(blp))
-            if not os.path.exists(blp):
-                return ("convert-no-output", rc, (o + e)[-160:], False)
-        rc, o, e = runcli(cli, ["blp", "validate", blp] + (["--strict"] if strict else []))
-        return ("validate", rc, (o + e)[-200:], True)
-    for (w, h) in dims:     # write the PPM inputs first (threads share them)
+    for (w, h) in dims:     # the PPM inputs
         with open(os.path.join(base, "p_%dx%d.ppm" % (w, h)), "w") as f:
             f.write("P3\n%d %d\n255\n" % (w, h) + "".join("%d %d %d\n" % ((i * 13) % 256, (i * 7) % 256, 40) for i in range(w * h)))
+
+    def convD(key):
+        fmt, w, h = key
+        ppm = os.path.join(base, "p_%dx%d.ppm" % (w, h))
+        blp = os.path.join(base, "p_%dx%d_%s.blp" % (w, h, fmt))
+        rc, o, e = runcli(cli, ["blp", "convert", ppm, blp, "--blp-version", "blp2" if fmt != "jpeg" else "blp1", "--blp-format", fmt, "--no-mipmaps"])
+        return key, (rc, (o + e)[-160:], os.path.exists(blp))
+    # first every conversion (one per texture), then the validations: a validation never sees a file that is still being written
+    with ThreadPoolExecutor(4) as exr:
+        conv = dict(exr.map(convD, sorted({(fmt, w, h) for fmt, w, h, _ in jobsD})))
+
+    def doD(j):
+        fmt, w, h, strict = j
+        rc, tail, exists = conv[(fmt, w, h)]
+        if rc != 0:
+            return ("convert", rc, tail, exists)
+        if not exists:
+            return ("convert-no-output", rc, tail, False)
+        blp = os.path.join(base, "p_%dx%d_%s.blp" % (w, h, fmt))
+        rc, o, e = runcli(cli, ["blp", "validate", blp] + (["--strict"] if strict else []))
+        return ("validate", rc, (o + e)[-200:], True)
     with ThreadPoolExecutor(4) as exr:
         rd = list(exr.map(doD, jobsD))
     want = C.run_lines([C.MODELRUN], ["blpvalid %d %d 0 %x %x" % (strict, fmt.startswith("dxt"), w, h) for fmt, w, h, strict in jobsD])
